@@ -203,7 +203,7 @@ def harness(spec, N_objs, two_vars, abandoned_first=False, value_eq=False):
     return h, name
 
 
-def local_harness(n_ref, n_alt, n_objs):
+def local_harness(n_ref, n_alt, n_objs, n_next=0):
     """every branch condition binds a variable of its own (v_i.a == x.a) and its conclusion is built from it.  The property
     speaks of bindings: an alternative is reached for a binding (x, v_1) for which the earlier branch did not fire, i.e. iff
     SOME value of the earlier branch's variable fails its condition (how often the later conclusion is then repeated is
@@ -212,7 +212,7 @@ def local_harness(n_ref, n_alt, n_objs):
     def h(ctx):
         xs = [P(ctx.fresh_int("xa%d" % i)) for i in range(n_objs)]
         k0 = ctx.fresh_int("k0")
-        n_br = n_ref + n_alt
+        n_br = n_ref + n_alt + n_next
         doms = [[P(ctx.fresh_int("v%da%d" % (b + 1, i))) for i in range(1 + ctx.choice("n%d" % (b + 1), 2))] for b in range(n_br)]
         x = let(P, xs, name="x")
         vs = [let(P, d, name="v%d" % (b + 1)) for b, d in enumerate(doms)]
@@ -226,15 +226,20 @@ def local_harness(n_ref, n_alt, n_objs):
                     for b in range(1, n_ref):
                         with alternative(vs[b].a == x.a):
                             Add(views, inference(TYPES[b + 1])(src=x, other=vs[b], val=x.a))
-            for b in range(n_ref, n_br):
+            for b in range(n_ref, n_ref + n_alt):
                 with alternative(vs[b].a == x.a):
                     Add(views, inference(TYPES[b + 1])(src=x, other=vs[b], val=x.a))
+            for b in range(n_ref + n_alt, n_br):
+                with next_rule(vs[b].a == x.a):
+                    # (its conclusion is about its own variable only)
+                    Add(views, inference(TYPES[b + 1])(other=vs[b], val=vs[b].a))
         got, unknown = [], 0
         for r in q.evaluate():
             ti = TYPES.index(type(r)) if type(r) in TYPES else -1
-            ix = index_of(xs, r.src)
+            is_next = ti > n_ref + n_alt
+            ix = -2 if is_next and r.src is None else index_of(xs, r.src)
             io = index_of(doms[ti - 1], r.other) if ti >= 1 else (0 if r.other is None else -1)
-            if ti < 0 or ix < 0 or io < 0:
+            if ti < 0 or ix == -1 or io < 0:
                 unknown += 1
             got.append((ix, io, ti, r.val))
         ctx.observe([g[:3] for g in got])
@@ -267,12 +272,19 @@ def local_harness(n_ref, n_alt, n_objs):
             n0 = sum(1 for g in got if g[0] == ix and g[2] == 0)
             per_branch[0].append(between(strict, weak, n0) if n_ref else EQ(n0, B2I(base)))
             weak = strict = NOT(base)  # alternatives of the base: an else-if chain after the base
-            for bb in range(n_ref, n_br):
+            for bb in range(n_ref, n_ref + n_alt):
                 for io, o in enumerate(doms[bb]):
                     n = present((ix, io, bb + 1))
                     c = EQ(o.a, ox.a)
                     per_branch[bb + 1].append(EQ(n, B2I(AND(weak, c))) if bb == n_ref else between(AND(strict, c), AND(weak, c), n))
                 weak, strict = AND(weak, some_fails[bb]), AND(strict, all_fail[bb])
+            pass
+        for bb in range(n_ref + n_alt, n_br):
+            # a next_rule branch fires in addition to whatever fired before it: its conclusion (about its own variable) is there
+            # iff its condition holds for some x
+            for io, o in enumerate(doms[bb]):
+                per_branch[bb + 1].append(IFF(OR([EQ(o.a, ox.a) for ox in xs]), present((-2, io, bb + 1)) >= 1))
+        for ix, ox in enumerate(xs):
             for g in got:
                 if g[0] == ix:
                     vals.append(EQ(g[3], ox.a))
@@ -341,6 +353,10 @@ def cases(tier, seed):
     for (n_ref, n_alt) in [(1, 0), (2, 0), (0, 1), (0, 2), (1, 1), (2, 1)] + ([(3, 0)] if tier == "thorough" else []):
         nm = "branches with variables of their own|refinement chain=%d,alternatives=%d" % (n_ref, n_alt)
         cs.append(Case(nm + "|N=2", local_harness(n_ref, n_alt, 2), key=nm, reset=eql_reset, core=True, timeout=300 if tier == "quick" else 1200,
+                       max_paths=50000 if tier == "quick" else 400000, validate=1, cex_grace=10**9))
+    for (n_ref, n_alt) in [(0, 0), (1, 0)]:
+        nm = "branches with variables of their own|refinement chain=%d,alternatives=%d,next rules=1" % (n_ref, n_alt)
+        cs.append(Case(nm + "|N=2", local_harness(n_ref, n_alt, 2, n_next=1), key=nm, reset=eql_reset, core=True, timeout=300 if tier == "quick" else 1200,
                        max_paths=50000 if tier == "quick" else 400000, validate=1, cex_grace=10**9))
     return cs
 
